@@ -19,7 +19,7 @@ CASE_TIMEOUT = 120.0
 
 
 def gen_cases(seed, tier):
-    n = 150 if tier == "quick" else 3000
+    n = 150 if tier == "quick" else 12000
     return [{"cls": "train", "seed": seed * 100000 + i, "n": 10, "_w": 1} for i in range(n)]
 
 
